@@ -116,8 +116,13 @@ func runC13(c runner.Case, env *runner.Env) (res runner.Result) {
 		if p.Native {
 			sweptDBIs = append(sweptDBIs, fmt.Sprintf("d%d", i))
 		} else {
-			sweptDBIs = append(sweptDBIs, fmt.Sprintf("_sync_shadow_d%d", i))
-			appDBIs = append(appDBIs, fmt.Sprintf("d%d", i))
+			app := fmt.Sprintf("d%d", i)
+			if i == 0 && p.NDBI > 1 {
+				// an application DBI whose name merely contains "_sync" is not one of Lightning Stream's own (seed C13j)
+				app = "zone_sync_state"
+			}
+			sweptDBIs = append(sweptDBIs, "_sync_shadow_"+app)
+			appDBIs = append(appDBIs, app)
 		}
 	}
 	nExpired, nProtected := 0, 0
